@@ -1,6 +1,6 @@
 (* C04H: the store machine of Deb822Store.v refines the handle-level reading of the pure model
    (Deb822Handles.v): one instruction, then histories. *)
-From V.model Require Import Base Deb822Lex Deb822Parse Deb822Edit Deb822Store Deb822Handles.
+From V.model Require Import Base Deb822Lex Deb822Parse Grammar Lossy Deb822Edit LiveDoc Deb822Store Deb822Handles.
 From V.proofs Require Import BaseP Deb822EditP LiveDocP LiveParaP.
 From V.proofs Require Import Deb822StoreP Deb822StoreOpsP Deb822StoreParaP Deb822StoreDocP.
 Set Default Timeout 60.
@@ -633,4 +633,167 @@ Proof.
   - now apply hadd_refines.
   - now apply hinsertp_refines.
   - now apply hremovep_refines.
+Qed.
+
+(* ------------------------------------------------------------------ histories *)
+Theorem hops_refine ops : forall st a, R st a ->
+  exists st', run_hops ops st = Ok st' /\ R st' (hsteps ops a).
+Proof.
+  induction ops as [|o rest IH]; intros st a HR; [exists st; split; [reflexivity|exact HR]|].
+  destruct (hop_refines o st a HR) as (x & st1 & R1 & HR1). destruct (IH st1 (hstep o a) HR1) as (st' & R' & HR').
+  exists st'. split; [cbn [run_hops]; rewrite R1; exact R'|exact HR'].
+Qed.
+
+(* the document undergoes exactly the pure model's operations *)
+Lemma a_doc_hstep o a : a_doc (hstep o a) = fold_left tstep2 (htrace1 o a) (a_doc a).
+Proof.
+  destruct o; cbn [hstep htrace1 a_doc fold_left]; try reflexivity;
+    try (unfold on_reg; destruct (nth_error (a_regs a) k) as [[[n|j]|]|]; reflexivity).
+  destruct (nth_error (paragraphs (a_doc a)) i); reflexivity.
+Qed.
+Lemma a_doc_hsteps ops : forall a, a_doc (hsteps ops a) = fold_left tstep2 (htrace ops a) (a_doc a).
+Proof.
+  induction ops as [|o rest IH]; intros a; [reflexivity|]. cbn [hsteps fold_left htrace]. fold (hsteps rest (hstep o a)).
+  rewrite IH, a_doc_hstep, fold_left_app. reflexivity.
+Qed.
+
+(* the start *)
+Lemma R_start t nregs : doc_ok t -> R (start_state t nregs) (astart t nregs).
+Proof.
+  intros (rs & -> & Hn). exists 0, 0, [], rs, (repeat None nregs). cbn [start_state regs trees astart a_doc a_dead a_regs].
+  repeat split; auto.
+  - constructor; [intros []|constructor].
+  - intros j t H. destruct j; discriminate.
+  - induction nregs; cbn [repeat]; constructor; [exact I|assumption].
+Qed.
+
+(* what is observed: the document handle prints the abstract document, a paragraph register
+   shows the paragraph its abstract value denotes *)
+Definition denotes (a : astate) (k : nat) : option tree :=
+  match nth_error (a_regs a) k with
+  | Some (Some (Live n)) => nth_error (paragraphs (a_doc a)) n
+  | Some (Some (Dead j)) => nth_error (a_dead a) j
+  | _ => None
+  end.
+Theorem R_observe st a : R st a -> root_tree st = Ok (a_doc a) /\ forall k, reg_tree k st = denotes a k.
+Proof.
+  intros (tid & ri & dt & rs & mregs & Hregs & Hdoc & Hnodes & HT & Ldt & Hnd & Hdead & HF).
+  destruct st as [ts regs0]. cbn [regs trees] in *. subst regs0. split.
+  - unfold root_tree, node_of_reg.
+    assert (Rn : runs (h <- get_reg 0 ;; node_of h) (mk_state ts (Some (mk_hnd tid []) :: mregs)) (Node ROOT rs) (mk_state ts (Some (mk_hnd tid []) :: mregs))).
+    { rbind; [apply runs_get_reg; reflexivity|]. eapply runs_node_of; [exact HT|reflexivity]. }
+    rewrite Rn. now rewrite Hdoc.
+  - intros k. unfold reg_tree, denotes. cbn [regs preg nth_error]. pose proof (Forall2_nth _ _ _ k HF) as Hn.
+    destruct (nth_error (a_regs a) k) as [[[n|j]|]|].
+    + destruct Hn as (x & -> & Hr). destruct x as [g|]; [|contradiction]. cbn [reg_rel] in Hr.
+      destruct Hr as (c & -> & pre & P & post & -> & HP & <- & <-).
+      rewrite (runs_node_of ts _ tid [length pre] _ P HT) by (cbn [s_tree get_path children]; now rewrite nth_error_app_len).
+      rewrite Hdoc. now rewrite (paragraphs_nth pre P post HP).
+    + destruct Hn as (x & -> & Hr). destruct x as [g|]; [|contradiction]. cbn [reg_rel] in Hr.
+      destruct Hr as (t & Ht & ->). destruct (Hdead j t Ht) as (rj & D & HD & Hd & _).
+      rewrite (runs_node_of ts _ t [] _ D HD eq_refl). now rewrite Hd.
+    + destruct Hn as (x & -> & Hr). destruct x; [contradiction|reflexivity].
+    + now rewrite Hn.
+Qed.
+
+(* ------------------------------------------------------------------ the documents it applies to *)
+Lemma skip_wsnl_nodes fuel : forall ts e r, skip_wsnl fuel ts = Ok (e, r) -> forallb is_node e = true.
+Proof.
+  induction fuel as [|f IH]; intros ts e r H; cbn [skip_wsnl] in H; destruct (starts_blank ts); try discriminate;
+    try (injection H as <- <-; reflexivity).
+  destruct (empty_line ts) as [e1 r1]. destruct (skip_wsnl f r1) as [[e2 r2]| | |] eqn:E; try discriminate.
+  injection H as <- <-. cbn [forallb is_node andb]. eapply IH. exact E.
+Qed.
+Lemma parse_root_nodes fuel : forall ts e n, parse_root fuel ts = Ok (e, n) -> forallb is_node e = true.
+Proof.
+  induction fuel as [|f IH]; intros ts e n H; destruct ts as [|t0 ts0]; cbn [parse_root] in H; try discriminate;
+    try (injection H as <- <-; reflexivity).
+  destruct (skip_wsnl (length (t0 :: ts0)) (t0 :: ts0)) as [[e1 r1]| | |] eqn:E1; try discriminate.
+  pose proof (skip_wsnl_nodes _ _ _ _ E1) as N1.
+  destruct r1 as [|t1 r1']; [injection H as <- <-; exact N1|].
+  unfold parse_paragraph in H. destruct (pp_entries (length (t1 :: r1')) (t1 :: r1')) as [[[e2 r2] n2]| | |]; try discriminate.
+  destruct (parse_root f r2) as [[e3 n3]| | |] eqn:E3; try discriminate. injection H as <- <-.
+  rewrite forallb_app, N1. cbn [app forallb is_node andb]. eapply IH. exact E3.
+Qed.
+Theorem parsed_doc_ok s t n : from_str_relaxed s = Ok (t, n) -> doc_ok t.
+Proof.
+  unfold from_str_relaxed, parse. destruct (lex s) as [ts| | |]; try discriminate. unfold parse_tokens.
+  destruct (parse_root (length ts) ts) as [[e m]| | |] eqn:E; try discriminate. intros [= <- <-].
+  exists e. split; [reflexivity|]. eapply parse_root_nodes. exact E.
+Qed.
+Lemma live_doc_ok d : doc_ok (ltree_of d).
+Proof.
+  exists (map lblock_tree d). split; [reflexivity|]. induction d as [|b r IH]; [reflexivity|]. cbn [map forallb]. rewrite IH.
+  destruct b; reflexivity.
+Qed.
+Lemma built_doc_ok l : doc_ok (deb822_of_paragraphs (map paragraph_of_pairs l)).
+Proof.
+  exists (join_paras 0 (map paragraph_of_pairs l)). split; [reflexivity|]. generalize 0 as i.
+  induction l as [|p r IH]; intros i; [reflexivity|]. cbn [map join_paras]. rewrite forallb_app. cbn [forallb].
+  rewrite IH. destruct i; reflexivity.
+Qed.
+
+(* ------------------------------------------------------------------ the whole: histories through handles *)
+Theorem handles_history prog t nregs : doc_ok t ->
+  let a0 := astart t nregs in
+  exists st', run_hops prog (start_state t nregs) = Ok st' /\
+              root_tree st' = Ok (fold_left tstep2 (htrace prog a0) t) /\
+              (forall k, reg_tree k st' = denotes (hsteps prog a0) k) /\
+              a_doc (hsteps prog a0) = fold_left tstep2 (htrace prog a0) t.
+Proof.
+  intros Hok a0. destruct (hops_refine prog _ _ (R_start t nregs Hok)) as (st' & Rn & HR).
+  destruct (R_observe _ _ HR) as [Hroot Hregs]. pose proof (a_doc_hsteps prog a0) as Hd. fold a0 in Hroot, Hregs.
+  change (a_doc a0) with t in Hd.
+  exists st'. split; [exact Rn|]. split; [now rewrite Hroot, Hd|]. split; [exact Hregs|exact Hd].
+Qed.
+
+(* (4) C05's history theorem for histories through handles obtained at any time *)
+Theorem handles_C05 prog d nregs : lwf d = true ->
+  let a0 := astart (ltree_of d) nregs in
+  let tr := htrace prog a0 in
+  ops_ok2 d tr ->
+  exists st' t', run_hops prog (start_state (ltree_of d) nregs) = Ok st' /\
+    root_tree st' = Ok t' /\
+    t' = ltree_of (fold_left astep2 tr d) /\ lwf (fold_left astep2 tr d) = true /\
+    doc_items t' = fold_left sstep2 tr (doc_items (ltree_of d)) /\
+    (forall k, reg_tree k st' = denotes (hsteps prog a0) k) /\
+    exists t'', from_str (text t') = Ok t'' /\ doc_items t'' = nonempty_paras (doc_items t').
+Proof.
+  intros Hw a0 tr Hok. destruct (handles_history prog (ltree_of d) nregs (live_doc_ok d)) as (st' & Rn & Hroot & Hregs & _).
+  destruct (C05_history_all tr d Hw Hok) as (E1 & E2 & E3 & E4).
+  exists st', (fold_left tstep2 tr (ltree_of d)). split; [exact Rn|]. split; [exact Hroot|]. auto.
+Qed.
+
+(* programs that only edit fields *)
+Definition field_only (o : hop) : bool :=
+  match o with HAdd _ | HInsertP _ _ | HRemoveP _ => false | _ => true end.
+Fixpoint fops_of (l : list dop) : list fop :=
+  match l with [] => [] | DF o :: r => o :: fops_of r | _ :: r => fops_of r end.
+Lemma htrace_field_only prog : forall a, forallb field_only prog = true -> htrace prog a = map DF (fops_of (htrace prog a)).
+Proof.
+  induction prog as [|o rest IH]; intros a H; [reflexivity|]. cbn [forallb] in H. apply andb_prop in H as [H1 H2].
+  cbn [htrace]. rewrite (IH _ H2) at 1.
+  assert (E1 : htrace1 o a = map DF (fops_of (htrace1 o a))).
+  { destruct o; try discriminate; cbn [htrace1]; try reflexivity; destruct (nth_error (a_regs a) k) as [[[n|j]|]|]; reflexivity. }
+  rewrite E1 at 1. rewrite <- map_app. f_equal.
+  clear. generalize (htrace1 o a) as l1. intros l1. induction l1 as [|[f| | |] r IHl]; cbn [fops_of app]; rewrite ?IHl; reflexivity.
+Qed.
+Lemma fold_tstep2_DF l t : fold_left tstep2 (map DF l) t = fold_left tstep l t.
+Proof. revert t; induction l as [|o r IH]; intros t; [reflexivity|]. cbn [map fold_left tstep2]. apply IH. Qed.
+
+Theorem handles_C04 prog d nregs : lwf d = true -> forallb field_only prog = true ->
+  let a0 := astart (ltree_of d) nregs in
+  let tr := fops_of (htrace prog a0) in
+  ops_ok d tr ->
+  exists st' t', run_hops prog (start_state (ltree_of d) nregs) = Ok st' /\
+    root_tree st' = Ok t' /\
+    t' = ltree_of (fold_left astep tr d) /\ lwf (fold_left astep tr d) = true /\
+    doc_items t' = fold_left sstep tr (doc_items (ltree_of d)) /\
+    (forall k, reg_tree k st' = denotes (hsteps prog a0) k) /\
+    exists t'', from_str (text t') = Ok t'' /\ doc_items t'' = nonempty_paras (doc_items t').
+Proof.
+  intros Hw Hf a0 tr Hok. destruct (handles_history prog (ltree_of d) nregs (live_doc_ok d)) as (st' & Rn & Hroot & Hregs & _).
+  fold a0 in Hroot. rewrite (htrace_field_only prog a0 Hf), fold_tstep2_DF in Hroot. fold tr in Hroot.
+  destruct (C04_history_all tr d Hw Hok) as (E1 & E2 & E3 & E4).
+  exists st', (fold_left tstep tr (ltree_of d)). split; [exact Rn|]. split; [exact Hroot|]. auto.
 Qed.
